@@ -1,12 +1,13 @@
 """C12 - stabilizer measurement reports signed expectation values (structural clauses)."""
 from ..rules_flow import Flow, P4_inverse
-from ..rules_tomo import B1_B2_counts, W_fitter, S2_estimator, W1_W2_builders
+from ..rules_tomo import W14_returns, B1_B2_counts, W_fitter, S2_estimator, W1_W2_builders
 
 
 def run(tree, rep, tier):
     flow = Flow(tree)
     flow.describe(rep)
     W_fitter(rep, flow, want=("W4", "W5", "W6", "W7", "S1"))
+    W14_returns(rep, flow)
     B1_B2_counts(rep, flow, want=("B1",))
     S2_estimator(rep, flow)
     W1_W2_builders(rep, flow, want=("W2",), builders=["tomography.stabilizer_measurement_circuit"])
